@@ -7,8 +7,9 @@ Driver of C11. One request per line, `<mode>` is `j` (JSON constants) or `p` (Py
   `s:<cps>` string   `n:<cps>` number (its `str()` text)   `T` `F` `Z` true/false/none
   `l:<k>` list of the last k values   `d:<k>` dict of the last k (string, value) pairs
 
-  pp <mode> <value>         text of the printed value              -> ok <cps>
-  ln <mode> <value>         the lines of the line iteration        -> ok <cps>|<cps>|…
+  pp|ps|pa <mode> <value>   text of the printed value (whole text, `str()`, text after an iteration) -> ok <cps>
+  ln|lc|lr|l2|li|lp|lz <mode> <value>  the lines of the line iteration, whatever the order in which the caller
+                            collects and renders them (the model is a pure function)  -> ok <cps>|<cps>|…
   gen <mode> <off> <value>  chunk list at an offset (`N` = marker)  -> ok <cps>|N|…   (diagnostic)
   rd <mode> <cps>           the reader on a text                   -> ok <value> | none (diagnostic)
 -/
@@ -69,15 +70,6 @@ end
 
 def handle (line : String) : String :=
   match splitWs line with
-  | "pp" :: m :: val =>
-    match constsOf m, parseValue val with
-    | some c, some v => "ok " ++ showCps (text (gen c limits v 0))
-    | _, _ => "bad-op"
-  | "ln" :: m :: val =>
-    match constsOf m, parseValue val with
-    | some c, some v =>
-      "ok " ++ "|".intercalate ((groupLines (gen c limits v 0)).map fun l => showCps l.flatten)
-    | _, _ => "bad-op"
   | "gen" :: m :: off :: val =>
     match constsOf m, off.toNat?, parseValue val with
     | some c, some o, some v => "ok " ++ showChunks (gen c limits v o)
@@ -88,6 +80,15 @@ def handle (line : String) : String :=
       match read c cs with
       | some v => "ok " ++ " ".intercalate (showJ v)
       | none => "none"
+    | _, _ => "bad-op"
+  | op :: m :: val =>
+    match constsOf m, parseValue val with
+    | some c, some v =>
+      -- the model is a pure function: every way of consuming the result sees the same text / lines
+      if op = "pp" || op = "ps" || op = "pa" then "ok " ++ showCps (text (gen c limits v 0))
+      else if op = "ln" || op = "lc" || op = "lr" || op = "l2" || op = "li" || op = "lp" || op = "lz" then
+        "ok " ++ "|".intercalate ((groupLines (gen c limits v 0)).map fun l => showCps l.flatten)
+      else "bad-op"
     | _, _ => "bad-op"
   | _ => "bad-op"
 
